@@ -103,6 +103,8 @@ class Recorder:
 
             async def on_close(self, rsocket, exception=None):
                 rec.on_close_calls += 1          # not part of the trace: counted for C11
+                if getattr(rec, 'on_close_raises', False):
+                    raise RuntimeError('on_close failed')
         return H
 
     def _install_class_wrappers(rec):
